@@ -248,15 +248,67 @@ def impl_handle(name, data, sock=None):
         return None, e
 
 
+def _fmt_attrs(name, h):
+    return "ok " + ";".join(f"{a}={v if isinstance(v, str) and v[:2] in ('c[', 'p[') and a in ('changes', 'reminders') else show_val(v)}"
+                            for a, v in attrs_of(name, h))
+
+
+# ---- long-lived instances: the simulator, the locator and every connection keep ONE handler object per verb for many messages.
+# A message must decode to the fields it was built from whatever the same object decoded before. Checked for the roles in which
+# the library really keeps an instance alive: hello (simulator, locator), packet (every connection, simulator), the async
+# partial-update consumer, and the simulator's per-verb request handlers (which only ever see requests).
+ROLE_FORMS = {
+    "Hello": ("helloBroadcast", "helloClient", "helloResponse"),
+    "AsyncPartialStatusBlock": ("partialUpdate",),
+    "Ping": ("pingRequest",), "Version": ("versionRequest",), "GetChannel": ("channelRequest",), "ConfigFile": ("configRequest",),
+    "StatusBlock": ("statusRequest",), "PackCommand": ("keypress", "setValue"), "Watercare": ("wcRequest", "wcSet"),
+    "Reminders": ("remindersRequest",), "UpdateFirmware": ("firmwareRequest",),
+}
+LONG = {}        # class name -> [instance, previous message input]
+
+
+def reuse_decode(name, form, content, exp, this_input):
+    """-> None | (differing attributes, previous message input)"""
+    if form not in ROLE_FORMS.get(name, ()):
+        return None
+    ent = LONG.get(name)
+    if ent is None:
+        ent = LONG[name] = [fresh(name), None]
+    h, prev = ent
+    bad = {}
+    try:
+        if name == "AsyncPartialStatusBlock":
+            run_coro(h.async_handle(content, (IP[0], IP[1], b"S", b"D")))
+        else:
+            h.handle(content, (IP[0], IP[1], b"S", b"D"))
+        for a, v in exp.items():
+            if a == "should_remove_handler":
+                continue
+            try:
+                got = read_attr(h, a)
+            except Exception as e3:  # noqa
+                got = f"<{type(e3).__name__}>"
+            if got != v or type(got) is not type(v) and not isinstance(v, (int, list)):
+                bad[a] = [repr(v)[:120], repr(got)[:120]]
+    except Exception as e:  # noqa
+        bad = {"raises": f"{type(e).__name__}: {e}"}
+    if bad:
+        LONG.pop(name, None)
+        return bad, prev
+    ent[1] = this_input
+    return None
+
+
 def impl_dec(name, data):
     h, e = impl_handle(name, data)
     if e is not None:
-        return canon_err(e)
-    try:
-        return "ok " + ";".join(f"{a}={v if isinstance(v, str) and v[:2] in ('c[', 'p[') and a in ('changes', 'reminders') else show_val(v)}"
-                                for a, v in attrs_of(name, h))
-    except Exception as e:  # noqa
-        return canon_err(e)
+        r = canon_err(e)
+    else:
+        try:
+            r = _fmt_attrs(name, h)
+        except Exception as e:  # noqa
+            r = canon_err(e)
+    return r
 
 
 def impl_claims(data):
@@ -643,6 +695,13 @@ def oracle(form, args, p2, p3):
             else:
                 key = f"roundtrip:{form}:{name}:{'raises' if 'raises' in bad else '+'.join(sorted(bad))}"
             fails.append((key, {a: repr(v)[:120] for a, v in exp.items()}, bad))
+        else:
+            # the same message through the LONG-LIVED instance of that class
+            me = msg_input(form, args, p2, p3)
+            r = reuse_decode(name, form, content, exp, me)
+            if r is not None:
+                fails.append((f"stale-state:{name}:{'raises' if 'raises' in r[0] else '+'.join(sorted(r[0]))}",
+                              {a: repr(v)[:120] for a, v in exp.items()}, r[0], dict(me, kind="reuse", handler=name, previous=r[1])))
     return fails
 
 
@@ -688,9 +747,10 @@ def search(ctx, n):
             fails = oracle(f, args, p2, p3)
         except Exception as e:  # noqa   (a mutated tree must give a verdict, not a crash)
             fails = [(f"oracle:{f}:{type(e).__name__}", "the library's encoder and decoder run", f"{type(e).__name__}: {e}")]
-        for key, exp, obs in fails:
+        for fl in fails:
+            key, exp, obs = fl[:3]
             ctx.hist("search_failures", key.split(":")[0])
-            ctx.violation(key, msg_input(f, args, p2, p3), exp, obs)
+            ctx.violation(key, fl[3] if len(fl) > 3 else msg_input(f, args, p2, p3), exp, obs)
     ctx.cov["search_messages"] = len(cases)
     return seen
 
@@ -955,6 +1015,7 @@ def run(ctx):
         correspondence(ctx, n_corr)
     seen = search(ctx, n_search)
     search_layout(ctx)
+    ctx.cov["long_lived_handler_roles_checked"] = sorted(ROLE_FORMS)
     if not ctx.quick:
         search_files_all(ctx)
     ctx.cov["distinct_nontrivial"] = len(seen)
@@ -985,6 +1046,13 @@ def replay(inp):
         search_layout(c)
         v = [x for x in c.violations if x["input"].get("test") == inp.get("test")]
         return bool(v), [{"key": x["key"], "expected": x["expected"], "observed": x["observed"]} for x in v] or "vector reproduced by the real code"
+    if inp.get("kind") == "reuse":
+        LONG.clear()
+        out = []
+        for m in ([inp["previous"]] if inp.get("previous") else []) + [dict(inp, kind="message")]:
+            f, args, p2, p3 = parse_input(dict(m, kind="message"))
+            out = [x for x in oracle(f, args, p2, p3) if x[0].startswith("stale-state")]
+        return bool(out), [{"key": x[0], "expected": x[1], "observed": x[2]} for x in out] or "decodes the same on the long-lived instance"
     if inp.get("kind") != "message":
         return False, "not a message input"
     f, args, p2, p3 = parse_input(inp)
